@@ -6,7 +6,7 @@ CONSTANTS
   TaskStop = FALSE
   AtomicCalls = TRUE
   EagerJoin = TRUE
-  MaxCmds = 5
+  MaxCmds = 4
   MaxSys = 1
   Codes = {0}
   AllowBusy = TRUE
